@@ -119,6 +119,14 @@ Proof.
 Qed.
 
 (** * doc_eq does not see dperm *)
+Lemma forallb_ext_in {A} (f g : A -> bool) l : (forall x, In x l -> f x = g x) -> forallb f l = forallb g l.
+Proof.
+  induction l as [|x l IH]; intro H; cbn [forallb]; [reflexivity|].
+  rewrite (H x (or_introl eq_refl)). f_equal. apply IH. intros y Hy. apply H. right. exact Hy.
+Qed.
+Lemma lookup_nokey l : m7396_lookup None l = None.
+Proof. unfold m7396_lookup. induction l as [|c l IH]; cbn [find]; [reflexivity|]. rewrite named_none. exact IH. Qed.
+
 Lemma arr_eq_ext (f g : node -> node -> bool) : forall la lb lb',
   Forall2 (fun y y' => forall x, In x la -> f x y = g x y') lb lb' -> arr_eq f la lb = arr_eq g la lb'.
 Proof.
@@ -152,7 +160,7 @@ Proof.
       destruct (m7396_lookup (Some kx) (n_children b)) as [y|] eqn:E1; destruct (m7396_lookup (Some kx) (n_children b')) as [y'|] eqn:E2;
         cbn [odperm] in R; try contradiction; [|reflexivity].
       rewrite Forall_forall in IH. apply IH; [exact Hx|exact R|]. apply lookup_some in E1. rewrite Forall_forall in Gc. apply Gc. tauto.
-    + unfold m7396_lookup. rewrite !(proj2 (find_none_iff _ _)); [reflexivity| |]; intros c _; apply named_none.
+    + rewrite !lookup_nokey. reflexivity.
   - rewrite <- (forallb_perm _ _ _ P). apply forallb_Forall2.
     clear - F. induction F as [|y y' l l' H _ IHl]; constructor; [|exact IHl]. rewrite (dperm_key _ _ H). reflexivity.
 Qed.
@@ -184,5 +192,137 @@ Proof.
   - apply forallb_ext_in. intros y _. destruct (n_key y) as [ky|] eqn:Eky.
     + pose proof (lookup_lrel ky _ _ L (proj2 Ka)) as R.
       destruct (m7396_lookup (Some ky) ch); destruct (m7396_lookup (Some ky) ch'); cbn [odperm] in R; try contradiction; reflexivity.
-    + unfold m7396_lookup. rewrite !(proj2 (find_none_iff _ _)); [reflexivity| |]; intros c _; apply named_none.
+    + rewrite !lookup_nokey. reflexivity.
+Qed.
+
+(** * the generated patch is a document *)
+Lemma keys_ok_sfeq l m : Forall2 sfeq l m -> keys_ok m -> keys_ok l.
+Proof.
+  intros F [K N]. split; [|rewrite (sfeq_keys _ _ F); exact N].
+  clear N. induction F as [|x y l m H _ IH]; [constructor|]. inversion K as [|? ? [ky [Hy Zy]] K']; subst.
+  constructor; [|auto]. exists ky. rewrite (sfeq_key _ _ H). auto.
+Qed.
+
+Lemma gd_sfeq : forall a b, sfeq a b -> gd b -> gd a.
+Proof.
+  induction a as [ty vs vi vd k ch IH] using node_ind'. intros b S G.
+  pose proof (sfeq_ty _ _ S) as Et. pose proof (sfeq_vstr _ _ S) as Evs. pose proof (sfeq_vdbl _ _ S) as Evd.
+  pose proof (sfeq_children _ _ S) as F. cbn [n_ty n_vstr n_vdbl n_children] in *.
+  apply gd_eq in G. destruct G as [[Hk [Hn [Hs Ho]]] Hc]. apply gd_eq. split.
+  - unfold gd_local. cbn [n_ty n_vstr n_vdbl n_children]. rewrite Et, Evs, Evd.
+    split; [exact Hk|]. split; [exact Hn|]. split; [exact Hs|]. intro E. apply (keys_ok_sfeq _ _ F). apply Ho. exact E.
+  - cbn [n_children]. clear - IH F Hc. induction F as [|x y l m H _ IHl]; [constructor|].
+    inversion IH; subst. inversion Hc; subst. constructor; eauto.
+Qed.
+
+Lemma gd_keyed k s : gd s -> gd (mp_keyed k s).
+Proof.
+  intro G. destruct s as [ty vs vi vd k0 ch]. apply gd_eq in G. apply gd_eq. cbn [mp_keyed n_children] in *.
+  destruct G as [G1 G2]. split; [|exact G2]. unfold gd_local in *. cbn [n_ty n_vstr n_vdbl n_children] in *.
+  rewrite tymask_clear_const. exact G1.
+Qed.
+
+Lemma gd_null : gd mp_CreateNull.
+Proof.
+  apply gd_eq. split; [|constructor]. unfold gd_local. cbn.
+  split; [unfold json_kind; tauto|]. split; [intro E; discriminate E|]. split; intro E; discriminate E.
+Qed.
+
+Definition gen_gd (gen : node -> node -> res (option node * node * node)) : Prop :=
+  forall x y s x' y', gen x y = Ok (Some s, x', y') -> gd x -> gd y -> no_null_member y = true -> depth_ok y -> gd s.
+
+Lemma add_member_gd k o : (forall s, o = Some s -> gd s) -> Forall gd (mp_add_member [] k o).
+Proof.
+  intro H. unfold mp_add_member. destruct k as [kk|]; [|constructor]. destruct o as [s|]; [|constructor].
+  cbn [app]. constructor; [apply gd_keyed; apply H; reflexivity|constructor].
+Qed.
+
+Lemma gen_walk_gd cmp gen : cmp_dperm cmp -> gen_gd gen -> forall fl tl p fl' tl',
+  mp_gen_walk cmp gen fl tl = Ok (p, fl', tl') -> Forall gd fl -> Forall gd tl -> Forall to_member_ok tl -> Forall gd p.
+Proof.
+  intros Hc Hg. induction fl as [|fc fr IHf].
+  - induction tl as [|tc tr IHt]; intros p fl' tl' H Gf Gt Mt.
+    + rewrite gen_walk_nil_nil in H. injection H as <- <- <-. constructor.
+    + rewrite gen_walk_nil_cons in H.
+      destruct (mp_gen_walk cmp gen [] tr) as [[[p2 fl2] tl2]| |] eqn:E; cbn [bind] in H; try discriminate.
+      injection H as <- <- <-. inversion Gt; subst. inversion Mt as [|? ? [_ [_ Hd]] Mt']; subst.
+      apply Forall_app. split; [|apply (IHt _ _ _ eq_refl); assumption].
+      apply add_member_gd. intros s Hs. rewrite dup_rec_ok in Hs by (unfold depth_ok in Hd; lia). injection Hs as <-.
+      apply (gd_sfeq _ tc (sfeq_clear_refs tc)). assumption.
+  - induction tl as [|tc tr IHt]; intros p fl' tl' H Gf Gt Mt.
+    + rewrite gen_walk_cons_nil in H.
+      destruct (mp_gen_walk cmp gen fr []) as [[[p2 fl2] tl2]| |] eqn:E; cbn [bind] in H; try discriminate.
+      injection H as <- <- <-. inversion Gf; subst.
+      apply Forall_app. split; [|apply (IHf _ _ _ _ E); assumption].
+      apply add_member_gd. intros s Hs. injection Hs as <-. apply gd_null.
+    + rewrite gen_walk_cons_cons in H. destruct (n_key fc) as [kf|]; [|discriminate]. destruct (n_key tc) as [kt|]; [|discriminate].
+      inversion Gf as [|? ? Gf1 Gf']; subst. inversion Gt as [|? ? Gt1 Gt']; subst. inversion Mt as [|? ? [Hnull [Hnn Hd]] Mt']; subst.
+      destruct (strcmp kf kt <? 0).
+      { destruct (mp_gen_walk cmp gen fr (tc :: tr)) as [[[p2 fl2] tl2]| |] eqn:E; cbn [bind] in H; try discriminate.
+        injection H as <- <- <-.
+        change (Forall gd (mp_add_member [] (Some kf) (Some mp_CreateNull) ++ p2)).
+        apply Forall_app. split; [|apply (IHf _ _ _ _ E); assumption].
+        apply add_member_gd. intros s Hs. injection Hs as <-. apply gd_null. }
+      destruct (0 <? strcmp kf kt).
+      { destruct (mp_gen_walk cmp gen (fc :: fr) tr) as [[[p2 fl2] tl2]| |] eqn:E; cbn [bind] in H; try discriminate.
+        injection H as <- <- <-. apply Forall_app. split; [|apply (IHt _ _ _ eq_refl); assumption].
+        apply (add_member_gd (Some kt)). intros s Hs. rewrite dup_rec_ok in Hs by (unfold depth_ok in Hd; lia). injection Hs as <-.
+        apply (gd_sfeq _ tc (sfeq_clear_refs tc)). assumption. }
+      destruct (cmp fc tc) as [[[same fc1] tc1]| |] eqn:Ec; cbn [bind] in H; try discriminate.
+      destruct (Hc _ _ _ _ _ Ec) as [Df Dt]. destruct same.
+      { destruct (mp_gen_walk cmp gen fr tr) as [[[p2 fl2] tl2]| |] eqn:E; cbn [bind] in H; try discriminate.
+        injection H as <- <- <-. apply (IHf _ _ _ _ E); assumption. }
+      destruct (gen fc1 tc1) as [[[sub fc2] tc2]| |] eqn:Eg; cbn [bind] in H; try discriminate.
+      destruct (mp_gen_walk cmp gen fr tr) as [[[p2 fl2] tl2]| |] eqn:E; cbn [bind] in H; try discriminate.
+      injection H as <- <- <-. apply Forall_app. split; [|apply (IHf _ _ _ _ E); assumption].
+      apply add_member_gd. intros s Hs. subst sub. apply (Hg _ _ _ _ _ Eg).
+      * eapply gd_dperm; eassumption.
+      * eapply gd_dperm; eassumption.
+      * rewrite <- (nnm_dperm _ _ Dt). exact Hnn.
+      * unfold depth_ok. rewrite <- (depth_dperm _ _ Dt). exact Hd.
+Qed.
+
+Theorem generate_gd : forall fuel, gen_gd (mp_generate_merge_patch fuel true).
+Proof.
+  induction fuel as [|f IH]; intros x y s x' y' H Gx Gy Hn Hd; [discriminate|].
+  cbn [mp_generate_merge_patch] in H.
+  destruct (negb (is_object y) || negb (is_object x)) eqn:Eo.
+  - rewrite dup_rec_ok in H by (unfold depth_ok in Hd; lia). injection H as <- <- <-.
+    apply (gd_sfeq _ y (sfeq_clear_refs y)). exact Gy.
+  - apply orb_false_iff in Eo. destruct Eo as [Oy Ox]. apply negb_false_iff in Oy, Ox.
+    destruct (mp_sort_members true (n_children x)) as [sf| |] eqn:Esf; cbn [bind] in H; try discriminate.
+    destruct (mp_sort_members true (n_children y)) as [st| |] eqn:Est; cbn [bind] in H; try discriminate.
+    destruct (mp_gen_walk (mp_compare_json_top true) (mp_generate_merge_patch f true) sf st) as [[[pm fl] tl]| |] eqn:E; cbn [bind] in H; try discriminate.
+    destruct pm as [|e pm']; [discriminate|]. injection H as <- <- <-.
+    destruct (sort_members_strict _ _ (gd_keys _ Gx Ox) Esf) as [Ssf [Ksf Psf]].
+    destruct (sort_members_strict _ _ (gd_keys _ Gy Oy) Est) as [Sst [Kst Pst]].
+    assert (Gsf : Forall gd sf) by (apply (Forall_perm _ _ _ Psf); apply gd_eq in Gx; tauto).
+    assert (Gst : Forall gd st) by (apply (Forall_perm _ _ _ Pst); apply gd_eq in Gy; tauto).
+    assert (Mst : Forall to_member_ok st) by (apply (Forall_perm _ _ _ Pst); apply to_members_ok; assumption).
+    destruct (gen_walk_sound _ _ (compare_json_top_dperm true) compare_json_top_sound (generate_dperm true f) (generate_sound f)
+                _ _ _ _ _ E Ssf Sst (proj1 Ksf) (proj1 Kst) Gsf Gst Mst) as [_ [Kp _]].
+    pose proof (gen_walk_gd _ _ (compare_json_top_dperm true) IH _ _ _ _ _ E Gsf Gst Mst) as Gp.
+    apply gd_eq. cbn [mp_set_children mp_CreateObject mp_new_item n_children]. split; [|exact Gp].
+    unfold gd_local. cbn [n_ty n_vdbl n_vstr n_children].
+    split; [unfold json_kind; tauto|]. split; [intro E0; discriminate E0|]. split; [intro E0; discriminate E0|]. intros _. exact Kp.
+Qed.
+
+(** * C18_generate on the inputs as they were given *)
+Theorem generate_roundtrip from to p from' to' :
+  m7396_doc from = true -> m7396_doc to = true -> no_null_member to = true -> m7396_depth_ok to = true ->
+  cJSONUtils_GenerateMergePatchCaseSensitive (Some from) (Some to) = Ok (p, from', to') ->
+  doc_eq (merge_opt from p) to = true.
+Proof.
+  intros Df Dt Hn Hd H. apply m7396_doc_gd in Df. apply m7396_doc_gd in Dt. apply Z.leb_le in Hd.
+  unfold cJSONUtils_GenerateMergePatchCaseSensitive, mp_GenerateMergePatch_gen in H.
+  destruct (mp_generate_merge_patch (node_depth to) true from to) as [[[p0 f'] t']| |] eqn:E; cbn [bind] in H; try discriminate.
+  injection H as <- <- <-.
+  destruct (generate_dperm true _ _ _ _ _ _ E) as [D1 D2].
+  destruct (generate_sound _ _ _ _ _ _ E Df Dt Hn Hd) as [Hdoc _].
+  rewrite (doc_eq_dperm_r _ to t' D2 Dt).
+  destruct p0 as [s|]; cbn [merge_opt] in *.
+  - pose proof (generate_gd _ _ _ _ _ _ E Df Dt Hn Hd) as Gs.
+    destruct (merge_dperm s Gs (Some from) (Some f') D1 Df) as [Dm Gm].
+    rewrite (doc_eq_dperm_l _ _ t' Dm Gm). exact Hdoc.
+  - rewrite (doc_eq_dperm_l _ _ t' D1 Df). exact Hdoc.
 Qed.
